@@ -16,7 +16,9 @@ rational arithmetic:
     f: u = 2^-53, C = 5     d: u = 2^-52, C = 5     m: u = 2^(1-wp), C = 16
     (C from HessApriori.v: theta = (1+es)^2 (1+em) per step; em = sqrt(2) gamma_2 for the naive
      complex product, gamma_14 for the 3-multiplication product of mpc_mul)
-    m additionally: |computed - exact| <= returned error bound
+    m additionally: |computed - exact| <= returned error bound; the m variants are called with matrix,
+    shift and output at equal AND at different precisions (matrix below / above the output, shift different
+    again); u is taken from the OUTPUT precision
     f: the value is mantissa * 2^exponent of the returned pair.
 """
 import json, os, re, math, struct, decimal
@@ -79,6 +81,13 @@ def rnd_double(rng, bits, emin, emax, allow_zero=0.0):
     e = rng.randint(emin, emax)
     v = math.ldexp(float(m), e - bits)       # in [2^(e-1), 2^e)
     return -v if rng.random() < 0.5 else v
+
+
+def prec_kind(spec):
+    p = [int(x) for x in str(spec).split(":")]
+    if len(p) == 1 or (p[0] == p[1] == p[2]): return "equal"
+    return ("matrix<output" if p[0] < p[2] else "matrix>output" if p[0] > p[2] else "matrix=output") + \
+           (",shift-differs" if p[1] not in (p[0], p[2]) else "")
 
 
 def gen_matrix(rng, n, bits, emin, emax, cplx=True, zero_sub=0.0, small_int=None):
@@ -154,12 +163,18 @@ def make_cases(ctx):
     def add(cls, n, H, s, wps):
         cases.append({"id": "c%d" % len(cases), "cls": cls, "n": n, "H": H, "s": s, "wps": wps})
 
+    def mixed():
+        # matrix : shift : output at different precisions; half of them with the matrix below the output
+        lo, hi = sorted(rng.sample(WPS, 2))
+        sh = rng.choice(WPS)
+        return "%d:%d:%d" % ((lo, sh, hi) if rng.random() < 0.6 else (hi, sh, lo))
+
     def wp_pick(k):
-        return sorted(rng.sample(WPS, k))
+        return [str(w) for w in sorted(rng.sample(WPS, k))] + [mixed()]
 
     # the witnesses of the Coq file: dhess_index_refuted (n = 1, H = [1], s = 1) and the 3 x 3 example
-    add("witness", 1, [(1.0, 0.0)], (1.0, 0.0), [64])
-    add("witness", 3, [(float(v), 0.0) for v in (2, 3, 5, 7, 11, 13, 0, 17, 19)], (1.0, 0.0), [64, 128])
+    add("witness", 1, [(1.0, 0.0)], (1.0, 0.0), ["64", "64:128:256"])
+    add("witness", 3, [(float(v), 0.0) for v in (2, 3, 5, 7, 11, 13, 0, 17, 19)], (1.0, 0.0), ["64", "128", "64:100:1024", "512:64:128"])
     shifts = ["zero", "real", "complex", "complex"]
     # full 53-bit entries, small orders
     for n in list(range(1, ctx.pick(17, 25))) * ctx.pick(3, 16):
@@ -182,7 +197,7 @@ def make_cases(ctx):
         cplx = rng.random() < 0.7
         H = gen_matrix(rng, n, 0, 0, 0, cplx=cplx, zero_sub=rng.choice([0.0, 0.05, 0.2]), small_int=3)
         add("int", n, H, gen_shift(rng, sk if cplx or sk != "complex" else "real", 0, 0, 0, small_int=3),
-            wp_pick(1) if n <= 103 else [rng.choice([64, 128])])
+            wp_pick(1) if n <= 103 else [rng.choice(["64", "128", "64:128:192", "192:64:128"])])
     return cases
 
 
@@ -255,8 +270,8 @@ def run_harness(ctx, h, cases, variants, pad):
             res.setdefault(f[1], {})["d"] = (vf.dhex(f[2]), int(f[3]), vf.dhex(f[4]), int(f[5]))
         elif f[0] == "M":
             res.setdefault(f[1], {}).setdefault("m", []).append(
-                (int(f[2]), mpf_digits_to_frac(f[4], int(f[5])), mpf_digits_to_frac(f[6], int(f[7])),
-                 vf.dhex(f[8]), int(f[9]), int(f[3])))
+                (int(f[2].split(":")[-1]), mpf_digits_to_frac(f[4], int(f[5])), mpf_digits_to_frac(f[6], int(f[7])),
+                 vf.dhex(f[8]), int(f[9]), int(f[3]), f[2]))
         elif f[0] == "E":
             res.setdefault(f[1], {})["done"] = True
     return rc, res, err
@@ -363,7 +378,7 @@ class Judge:
     def err2(self, val, exact):
         return (val[0] - exact[0]) ** 2 + (val[1] - exact[1]) ** 2
 
-    def check_value(self, case, variant, val, C, u, wp=None, errbound=None):
+    def check_value(self, case, variant, val, C, u, wp=None, errbound=None, spec=None):
         """returns True when the predicate holds"""
         ctx = self.ctx
         n = case["n"]
@@ -374,7 +389,7 @@ class Judge:
         g = gamma(C * n, u)
         B = case["B"]
         e2 = self.err2(val, case["det"])
-        tag = variant + ("@%d" % wp if wp else "")
+        tag = variant + ("@%s" % (spec or wp) if wp else "")
         ok = True
         bound = g * B
         if e2 > bound * bound:
@@ -407,8 +422,8 @@ class Judge:
             if e2 > errbound * errbound:
                 ok = False
                 rel = sqrt_ratio(e2 / (errbound * errbound)) if errbound > 0 else float("inf")
-                ctx.violation("errbound:m@%d:%s:n=%d:%s" % (wp, case["cls"], n, case["id"]),
-                              "mps_mhessenberg determinant: |computed - exact| exceeds the returned error bound by a factor %.3g (order %d, wp %d)" % (rel, n, wp),
+                ctx.violation("errbound:m@%s:%s:n=%d:%s" % (spec or wp, case["cls"], n, case["id"]),
+                              "mps_mhessenberg determinant: |computed - exact| exceeds the returned error bound by a factor %.3g (order %d, precisions matrix:shift:output %s)" % (rel, n, spec or wp),
                               self.replay_obj(case, variant, {"computed": [str(val[0]), str(val[1])],
                                                               "exact": [str(case["det"][0]), str(case["det"][1])],
                                                               "errbound": str(errbound), "wp": wp}))
@@ -437,13 +452,14 @@ class Judge:
                 val = (Fraction(mr) * pow2(er), Fraction(mi) * pow2(ei))
                 self.check_value(case, "d", val, C_D, U_D)
         if "m" in variants:
-            for (wp, vre, vim, em, ee, wpe) in r.get("m", []):
+            for (wp, vre, vim, em, ee, wpe, spec) in r.get("m", []):
                 eb = Fraction(em) * pow2(ee) if math.isfinite(em) else None
                 if eb is None or eb < 0:
                     ctx.violation("errbound-nonfinite:m@%d:%s" % (wp, case["id"]), "returned error bound is not a finite non-negative number",
                                   self.replay_obj(case, "m", {"wp": wp}))
                     continue
-                self.check_value(case, "m", (vre, vim), C_M, Fraction(2) ** (1 - wp), wp=wp, errbound=eb)
+                self.count("m-prec:" + prec_kind(spec))
+                self.check_value(case, "m", (vre, vim), C_M, Fraction(2) ** (1 - wp), wp=wp, errbound=eb, spec=spec)
                 # correspondence of the error vector with the analysed recurrence (model of the code)
                 D = decimal.Decimal
                 em_model = mhess_err_model(case, wpe)
@@ -458,7 +474,7 @@ class Judge:
                                  "H": [list(z) for z in case["H"]],
                                  "exact_det": [float(case["det"][0]), float(case["det"][1])],
                                  "f": list(r.get("f", ())), "d": list(r.get("d", ())),
-                                 "m": [[m[0], float(m[1]), float(m[2]), m[3] * 2.0 ** max(-1000, m[4])] for m in r.get("m", [])]})
+                                 "m": [[m[6], float(m[1]), float(m[2]), m[3] * 2.0 ** max(-1000, m[4])] for m in r.get("m", [])]})
 
 
 def report_crash(ctx, judge, cases, res, rc, err, variants):
